@@ -42,6 +42,10 @@ func runC08(c *engine.Ctx, tier string) {
 	extensionSearch(c)
 	createWatchRespond(c, "C08.2a", "Server.Set", sp, err1, true)
 	createWatchRespond(c, "C08.2b", "Server.RollbackTransaction", rp, err2, false)
+	// the handler learns the outcome only through the transaction store's watch: the watcher must be
+	// registered before the replay read, and must stay registered while other watchers of the record leave
+	watchOrder(c, "C08.4a", pkgStoreTxV2)
+	registryCleanup(c, "C08.4b", pkgStoreTxV2, 3)
 }
 
 // waitTable evaluates the wait loop of a handler over Synchronicity × State.
